@@ -7,6 +7,7 @@ package main
 import (
 	"fmt"
 	"os"
+	"runtime/pprof"
 )
 
 type subcommand func(args []string) error
@@ -18,6 +19,11 @@ func main() {
 		fmt.Fprintln(os.Stderr, "usage: hsverif <subcommand> [args]")
 		os.Exit(2)
 	}
+	if pf := os.Getenv("HSVERIF_PROFILE"); pf != "" {
+		f, _ := os.Create(pf)
+		_ = pprof.StartCPUProfile(f)
+		defer pprof.StopCPUProfile()
+	}
 	cmd, ok := subcommands[os.Args[1]]
 	if !ok {
 		fmt.Fprintf(os.Stderr, "unknown subcommand %q\n", os.Args[1])
@@ -25,6 +31,7 @@ func main() {
 	}
 	if err := cmd(os.Args[2:]); err != nil {
 		fmt.Fprintln(os.Stderr, "hsverif:", err)
+		pprof.StopCPUProfile()
 		os.Exit(2)
 	}
 }
